@@ -827,6 +827,15 @@ func (fc *FnCtx) modelCall(st *State, e *ast.CallExpr, fn *types.Func, full stri
 		}
 		fc.assumeGlobal(b("(=> (= (strlen %s) 0) %s)", args[1].S, t.S))
 		return []Term{t}, true
+	case "strings.IndexByte", "strings.IndexRune", "strings.IndexAny", "strings.LastIndexByte", "strings.LastIndexAny", "strings.Index", "strings.LastIndex":
+		// -1, or a position inside the string (at most its length for the empty-substring case of Index)
+		r := fc.fresh("index", types.Typ[types.Int])
+		if full == "strings.Index" || full == "strings.LastIndex" {
+			fc.assumeGlobal(b("(and (>= %s (- 1)) (<= %s (strlen %s)))", r.S, r.S, args[0].S))
+		} else {
+			fc.assumeGlobal(b("(and (>= %s (- 1)) (< %s (strlen %s)))", r.S, r.S, args[0].S))
+		}
+		return []Term{r}, true
 	case "strings.Contains":
 		fc.declareFun("str_contains", []string{SStr, SStr}, SBool)
 		t := b("(str_contains %s %s)", args[0].S, args[1].S)
